@@ -55,7 +55,9 @@ AllowedDecision(f, fl, issuerPlanned) ==
   ELSE IF Silent(f, fl, issuerPlanned)  THEN {TRUE, FALSE}
   ELSE {FALSE}
 
-ChangeTypeOf(f) == IF f.cert THEN "replace" ELSE "create"
+\* "replace" = an artifact file is there and will be overwritten (the command line asks first, C10) - whether or not a
+\* certificate can be read from it; in this fact space a file is there iff some part of it is
+ChangeTypeOf(f) == IF f.cert \/ f.key \/ f.csr THEN "replace" ELSE "create"
 
 (***************************************************************************)
 (* Forests.  Entities are 1..n; parent[e] = 0 for a root.                  *)
